@@ -26,6 +26,15 @@ StaleHighVoteU6 ==
     <<S("propose", 2)>> \o Each("proposal", <<1, 2, 3>>) \o Each("timer", <<4, 5, 6, 1, 2>>) \o Each("just", <<1, 2, 3, 4, 5, 6>>)
     \o <<S("propose", 3)>> \o Each("proposal", <<1, 2, 3, 4, 5>>) \o <<S("just", 5)>> \o Each("timer", <<1, 2, 3, 4, 6>>)
     \o Each("just", <<1, 2, 3, 4, 6>>) \o <<S("propose", 4)>> \o Each("proposal", <<1, 2, 3, 4, 6>>) \o <<S("just", 1)>>
+(* SplitTallyU6: six equal validators, 6 Byzantine (it only lends its signature to certificates). View 1: p is voted by 1,2,3,4 (+6): *)
+(* replica 1 sees the commit certificate and finalises p. 2,3,4,5 time out (p has weight 3): view 2 re-proposes p, but the         *)
+(* re-proposal reaches only 2 and 3. 2,3,4,5 time out again: their high votes are p@2, p@2, p@1, none. A tally keyed by            *)
+(* (view, header) instead of the header (Weaken = "high_vote_tally_by_view") sees weights 2 and 1, no sub-quorum, so view 3 may    *)
+(* propose a fresh q, which 2,3,4,5 (+6) certify: replica 2 finalises q.                                                           *)
+SplitTallyU6 ==
+    <<S("propose", 2)>> \o Each("proposal", <<1, 2, 3, 4>>) \o <<S("just", 1)>> \o Each("timer", <<2, 3, 4, 5>>) \o Each("just", <<2, 3, 4, 5>>)
+    \o <<S("propose", 3)>> \o Each("proposal", <<2, 3>>) \o Each("timer", <<2, 3, 4, 5>>) \o Each("just", <<2, 3, 4, 5>>)
+    \o <<S("propose", 4)>> \o Each("proposal", <<2, 3, 4, 5>>) \o <<S("just", 2)>>
 CONSTANT Script
 
 GInit == InitView1 /\ step = 1
